@@ -109,11 +109,22 @@ func H_C13_Sign() {
 	}
 	zzverif.Reach([]string{"signed-p2pkh", "signed-p2sh-p2wpkh", "signed-p2wpkh", "signed-p2tr"}[kind])
 	if !zzverif.Symbolic() {
-		// native: the real signature must pass the interpreter under the standard flags
-		raw := tx.SerializeNew()
-		tx.SetHash(raw)
-		good := script.VerifyTxScript(uo.Pk_script, &script.SigChecker{Tx: tx, Idx: 0, Amount: uo.Value}, script.STANDARD_VERIFY_FLAGS)
-		zzverif.Assert("C13.sign.verifies", good)
+		// native: the real signatures must pass the interpreter under the standard flags. Under the engine (r, s) are
+		// arbitrary; natively the signers draw random nonces, so the transaction is signed again 1500 times to meet the
+		// encodings the model may have chosen (e.g. an R with the top byte 0x80). The assertion carries the label of the
+		// structural assertion of the same output kind.
+		label := []string{"C13.sign.p2pkh.scriptsig", "C13.sign.witness", "C13.sign.witness", "C13.sign.taproot.witness"}[kind]
+		for attempt := 0; attempt < 1500; attempt++ {
+			raw := tx.SerializeNew()
+			tx.SetHash(raw)
+			good := script.VerifyTxScript(uo.Pk_script, &script.SigChecker{Tx: tx, Idx: 0, Amount: uo.Value}, script.STANDARD_VERIFY_FLAGS)
+			zzverif.Assert(label, good)
+			tx.TxIn[0].ScriptSig = nil
+			tx.SegWit = nil
+			if !sign_tx(tx) {
+				zzverif.Assert(label, false)
+			}
+		}
 		return
 	}
 	sig := h_der_sig(rb, sb, 1)
